@@ -278,6 +278,12 @@ class CW:
         t = strip(term)
         if isinstance(t, tuple) and t[0] == "call" and t[1] == ST + "as_raw":
             return strip(t[2][0])
+        # the observed raw word itself (what `fetch_update` hands its closure and compares against): `State::from_raw(word)`
+        if isinstance(t, tuple) and t[0] == "call" and t[1].startswith(ATOMIC_PREFIX) and t[1].endswith("::load"):
+            return ("call", ST + "from_raw", (t,), None)
+        if isinstance(t, tuple) and t[0] == "field" and t[1] in ("0", 0) and isinstance(t[2], tuple) and t[2][0] == "variant" and \
+                t[2][1] == "Err" and isinstance(t[2][2], tuple) and t[2][2][0] == "call" and t[2][2][1].startswith(ATOMIC_PREFIX):
+            return ("call", ST + "from_raw", (t,), None)
         return None
 
     def observation(self, sterm):
